@@ -174,7 +174,21 @@ impl<'a> Args<'a> {
     }
     fn ns(&self, ctx: &Ctx, k: &str) -> Result<NormalizedString, Reply> {
         let s = self.string(ctx, k)?;
-        NormalizedString::new(&s).map_err(|e| Reply::Bad(format!("arg {}: not a credential string: {}", k, e)))
+        // every constructor / conversion of the type is a legitimate way to build a credential: the route is a function of
+        // the text (so a replay takes the same route) and differs between the spellings of one credential
+        let mut h: u32 = 0x811c_9dc5;
+        for b in s.bytes().chain(k.bytes()) {
+            h = (h ^ b as u32).wrapping_mul(0x0100_0193);
+        }
+        let r = match (h >> 7) % 5 {
+            0 => NormalizedString::new(&s),
+            1 => NormalizedString::from_str(&s),
+            2 => NormalizedString::from_string(s.clone()),
+            3 => NormalizedString::try_from(s.as_str()),
+            _ => NormalizedString::try_from(s.clone()),
+        };
+        // the drivers only send strings that are valid by the rule (1..=16 bytes of 0x20..=0x7E): a refusal is the library's doing
+        r.map_err(|e| Reply::Err(vec![("stage", "credential".into()), ("arg", k.to_string()), ("text", hex(s.as_bytes())), ("msg", e.to_string())]))
     }
 }
 
@@ -269,6 +283,27 @@ fn census_item(src: &str, a: &Args, ctx: &Ctx, state: &mut CensusState) -> Resul
             }
             hook::log_take();
             Ok(out)
+        }
+        "proof_clones" => {
+            // several SrpServer objects that stem from copies of ONE pending SrpProof (the usual way to survive a refused
+            // attempt, since into_server consumes the proof): each draws its own first reconnect challenge
+            let proof = state.ver.clone().into_proof();
+            let pk = PublicKey::from_le_bytes(*proof.server_public_key()).map_err(|e| format!("own B invalid: {}", e))?;
+            let chal = SrpClientChallenge::new(state.u.clone(), state.p.clone(), wow_srp::GENERATOR, wow_srp::LARGE_SAFE_PRIME_LITTLE_ENDIAN, pk, *proof.salt());
+            let a_pub = *chal.client_public_key();
+            let m1 = *chal.client_proof();
+            let mut out = Vec::new();
+            for i in 0..4 {
+                let apk = PublicKey::from_le_bytes(a_pub).map_err(|e| format!("own A invalid: {}", e))?;
+                if i == 1 {
+                    // a refused attempt on one more copy in between
+                    let apk2 = PublicKey::from_le_bytes(a_pub).map_err(|e| format!("own A invalid: {}", e))?;
+                    let _ = proof.clone().into_server(apk2, [0u8; 20]);
+                }
+                let (server, _m2) = proof.clone().into_server(apk, m1).map_err(|e| format!("honest login refused: {}", e))?;
+                out.push(hex(server.reconnect_challenge_data()));
+            }
+            Ok(out.join("/"))
         }
         "mixed" => {
             // a randomly ordered mix of every operation that draws 16- or 32-byte values, on one thread; every value
